@@ -14,12 +14,15 @@
    * `C09_exact`: restoring the package made from a well-formed level yields the snapshotted
      content (same price, same orders field for field, same aggregates).
    * the supported version is the one in the source (`formatVersion`, regenerated on every run).
-  `C09_partial`: (a) that *different content gives different bytes* — injectivity of the serializer
-  `ser` — is proved at tree level (`C09_tree_injective`, from the C17 decoder theorems) and, for the
-  text layer, rests on `serde_json` printing distinct trees differently (modelled `render`,
-  compared byte for byte on every run); (b) "every proper prefix of the text is an error" concerns
-  `serde_json`'s reader and is decided by the run only (every truncation point of every generated
-  package). Collision resistance of SHA-256 is an assumption of the property itself.
+   * `C09_ser_injective`: *different content gives different bytes* — the serializer the checksum
+     is computed over is injective on well-typed snapshots (price, each aggregate, every field of
+     every order, the number and the sequence of the orders all reach the bytes), by the text and
+     tree round-trip theorems of C17; hence `C09_tamper_content`: any accepted package whose content
+     differs from the snapshotted one under the unchanged checksum is a collision of `H`.
+  `C09_partial`: "every proper prefix of the text is an error" concerns `serde_json`'s reader and is
+  decided by the run only (every truncation point of every generated package); that `render` is
+  what `serde_json::to_vec` prints is compared byte for byte on every run. Collision resistance of
+  SHA-256 is an assumption of the property itself.
 -/
 import PLV.Props.C10
 import PLV.Props.C17
@@ -89,12 +92,50 @@ theorem C09_tamper (H : List UInt8 → Str) (s : Snapshot) (p' : Package) (l : L
 
 /-- the checksum is over the whole content: the price, the aggregates and the order sequence all
     enter `ser`; at tree level, well-typed snapshots with different content have different trees -/
-theorem C09_tree_injective (s t : Snapshot) (hs : C17.SnapOk s) (ht : C17.SnapOk t)
+theorem C09_tree_injective (s t : Snapshot) (hs : SnapOk s) (ht : SnapOk t)
     (h : encSnapshot s = encSnapshot t) : s = t := by
   have e1 := C17.C17_snapshot s hs
   have e2 := C17.C17_snapshot t ht
   rw [h, e2] at e1
   exact (Except.ok.inj e1).symm
+
+/-- bytes of printable ASCII determine the characters -/
+theorem bytes_injective (a b : Str) (ha : ∀ c ∈ a, c.toNat < 128) (hb : ∀ c ∈ b, c.toNat < 128)
+    (h : a.map (fun c => UInt8.ofNat c.toNat) = b.map (fun c => UInt8.ofNat c.toNat)) : a = b := by
+  induction a generalizing b with
+  | nil => cases b with
+    | nil => rfl
+    | cons y ys => simp at h
+  | cons x xs ih =>
+    cases b with
+    | nil => simp at h
+    | cons y ys =>
+      simp only [List.map_cons, List.cons.injEq] at h
+      have hx := ha x (List.mem_cons_self ..)
+      have hy := hb y (List.mem_cons_self ..)
+      have hxy : x = y := by
+        have h1 := congrArg UInt8.toNat h.1
+        simp only [UInt8.toNat_ofNat'] at h1
+        have : x.toNat = y.toNat := by omega
+        exact Char.toNat_inj.1 this
+      rw [hxy, ih ys (fun c hc => ha c (List.mem_cons_of_mem _ hc)) (fun c hc => hb c (List.mem_cons_of_mem _ hc)) h.2]
+
+/-- **the checksum covers the whole content**: well-typed snapshots with the same serialized bytes
+    are equal — price, aggregates, every field of every order, their number and their sequence -/
+theorem C09_ser_injective (s t : Snapshot) (hs : SnapOk s) (ht : SnapOk t) (h : ser s = ser t) : s = t := by
+  have cs := clean_snapshot s hs
+  have ct := clean_snapshot t ht
+  have hr : render (encSnapshot s) = render (encSnapshot t) :=
+    bytes_injective _ _ (render_ascii _ cs) (render_ascii _ ct) h
+  exact C09_tree_injective s t hs ht (render_injective _ _ cs ct hr)
+
+/-- **tampering with the content**: an accepted package that carries the checksum of the package made
+    from `s` but well-typed content different from the snapshotted one is a collision of `H` -/
+theorem C09_tamper_content (H : List UInt8 → Str) (s : Snapshot) (p' : Package) (l : Level)
+    (hs : SnapOk s.refresh) (hs' : SnapOk p'.snapshot)
+    (hck : p'.checksum = (Package.new H s).checksum) (hacc : restore H p' = .ok l)
+    (hdiff : p'.snapshot ≠ s.refresh) : ∃ a b, a ≠ b ∧ H a = H b :=
+  C09_tamper H s p' l hck hacc (fun e => hdiff (C09_ser_injective _ _ hs' hs e))
 
 /-- a freshly made package is accepted, and restoring it rebuilds from the refreshed content -/
 theorem C09_fresh (H : List UInt8 → Str) (s : Snapshot) :
